@@ -11,24 +11,28 @@ def seenStr : Seen → String
 def evStr : Ev → String
   | Ev.cas t a ok s d => s!"s {t} a{a} cas{if ok then "+" else "-"} req {seenStr s}>{seenStr d}"
   | Ev.xchg t a s d => s!"s {t} a{a} xchg req {seenStr s}>{seenStr d}"
-  | Ev.store t a b k => s!"s {t} a{a} store a{b}.{k} 1"
-  | Ev.waitBlock t a k => s!"s {t} a{a} wait-block a{t}.{k}"
-  | Ev.waitPass t a k => s!"s {t} a{a} wait-pass a{t}.{k}"
+  | Ev.store t a ft k => s!"s {t} a{a} store a{ft}.{k} 1"
+  | Ev.waitBlock t a ft k => s!"s {t} a{a} wait-block a{ft}.{k}"
+  | Ev.waitPass t a ft k => s!"s {t} a{a} wait-pass a{ft}.{k}"
+  | Ev.cbBlock t a => s!"s {t} a{a} cb-block"
+  | Ev.cbPass t a => s!"s {t} a{a} cb-pass"
+  | Ev.auxCas t a lk => s!"s {t} a{a} cas+ aux " ++ (if lk then "null>door" else "door>null")
   | Ev.csOp t a => s!"s {t} a{a} cs"
   | Ev.fin t => s!"s {t} fin"
   | Ev.cs a r o => s!"cs a{a} r{r}" ++ (if o then " OVERLAP" else "")
   | Ev.tryFail a r => s!"try-fail a{a} r{r}"
   | Ev.doneA a => s!"done a{a}"
 
+/-- `<fl><rel><opt>*`; the only option that matters to the model is `s` (shared slot), the others select spellings -/
 def parseRound (w : String) : Option Round :=
   match w.toList with
-  | [f, r] =>
+  | f :: r :: opts =>
     let fl := match f with
-      | 'l' => some Flavour.lock | 't' => some Flavour.try_ | 'c' => some Flavour.co | _ => none
+      | 'l' => some Flavour.lock | 't' => some Flavour.try_ | 'c' => some Flavour.co | 'k' => some Flavour.cb | _ => none
     let rl := match r with
-      | 'x' => some Rel.x | 'd' => some Rel.d | 'a' => some Rel.a | _ => none
+      | 'x' => some Rel.x | 'd' => some Rel.d | 'a' => some Rel.a | 'g' => some Rel.g | 'm' => some Rel.m | _ => none
     match fl, rl with
-    | some fl, some rl => some { fl := fl, rel := rl }
+    | some fl, some rl => some { fl := fl, rel := rl, shared := opts.contains 's' }
     | _, _ => none
   | _ => none
 
@@ -65,7 +69,9 @@ def runCase (body : List (List String)) : List String := Id.run do
     | [] => "free"
     | [Elem.door] => "locked"
     | _ => "chain"
-  let mut lines := out.push s!"final req={rq} queue={if s.queue.isEmpty then "empty" else "nonempty"}"
+  let auxFree := (List.range n).all fun i => !s.aux i
+  let mut lines := out.push (s!"final req={rq} queue={if s.queue.isEmpty then "empty" else "nonempty"}" ++
+    s!" slot={if s.held n then "armed" else "empty"} aux={if auxFree then "free" else "locked"}")
   for i in [0:n] do
     lines := lines.push s!"agent a{i} rounds={s.round i}/{(cfg.rounds i).length}"
   return (lines.toList ++ ["end"])
